@@ -2,6 +2,7 @@
 From RxModel Require Import Timed.
 From RxSpec Require Import TimedSpec.
 From RxProofs Require Import ValEq.
+From RxProofs Require SchedLaws.
 Open Scope N_scope.
 
 (* ---------- walking ---------- *)
@@ -533,7 +534,9 @@ Record LiveInv (o : top) (s : tsys) : Prop := {
   li_tasks : forall i tk j, nth_error (tasks s) i = Some tk -> nth_error (jobs s) i = Some j ->
                             quiet_task s tk j \/ covered o s i j;
   li_src : src_guard o s;
-  li_nosub : forall i, nth_error (jobs s) i = Some JSubscribe -> i = 0%nat /\ match o with TDelaySubscription _ | TSubscribeOn => True | _ => False end
+  li_nosub : forall i, nth_error (jobs s) i = Some JSubscribe -> i = 0%nat /\ match o with TDelaySubscription _ | TSubscribeOn => True | _ => False end;
+  (* a handle reports closed only for a finished task *)
+  li_value : forall i tk, nth_error (tasks s) i = Some tk -> t_value tk = true -> t_stage tk = StFinished
 }.
 
 (* what cancelling does to the bookkeeping *)
@@ -622,7 +625,7 @@ Qed.
 (* unsubscribing the subscription returned by actual_subscribe silences a live system *)
 Lemma live_unsub_silent o s : not_raw o -> LiveInv o s -> Silent (fst (on_unsub o s)).
 Proof.
-  intros Ho [L1 L2 L3 L4].
+  intros Ho [L1 L2 L3 L4 L5].
   (* generic: disconnecting the input and cancelling a set of tasks that contains every covered one *)
   assert (Gen : forall s', jobs s' = jobs s -> src_on s' = false ->
                 (alive s = false -> alive s' = false) ->
@@ -753,7 +756,7 @@ Lemma li_upd o s s' :
   LiveInv o s -> tasks s' = tasks s -> jobs s' = jobs s -> multi s' = multi s -> handler s' = handler s ->
   main_task s' = main_task s -> (alive s = false -> alive s' = false) -> src_guard o s' -> LiveInv o s'.
 Proof.
-  intros [L1 L2 L3 L4] Ht Hj Hm Hh Hmt Ha Hg. split.
+  intros [L1 L2 L3 L4 L5] Ht Hj Hm Hh Hmt Ha Hg. split.
   - congruence.
   - intros i tk j Hi Hjj. rewrite Ht in Hi. rewrite Hj in Hjj. destruct (L2 i tk j Hi Hjj) as [Q|C].
     + left. apply (quiet_mono s); auto.
@@ -762,15 +765,17 @@ Proof.
       * destruct C as (l & Hl & Hin). exists l. split; [congruence|exact Hin].
   - exact Hg.
   - intros i Hi. rewrite Hj in Hi. apply L4, Hi.
+  - intros i tk Hi. rewrite Ht in Hi. apply (L5 i tk Hi).
 Qed.
 
 (* replacing the state of one task by one that is quiet whenever the old one was *)
 Lemma li_set_task o s t tk tk' :
   LiveInv o s -> nth_error (tasks s) t = Some tk -> (status_quiet tk -> status_quiet tk') ->
   (match o with TDelaySubscription _ | TSubscribeOn => t = 0%nat -> t_value tk = true -> t_value tk' = true | _ => True end) ->
+  (t_value tk' = true -> t_stage tk' = StFinished) ->
   LiveInv o (upd_tasks s (set_nth (tasks s) t tk')).
 Proof.
-  intros [L1 L2 L3 L4] Ht Hq Hv. split; cbn [upd_tasks tasks jobs].
+  intros [L1 L2 L3 L4 L5] Ht Hq Hv Hvi. split; cbn [upd_tasks tasks jobs].
   - rewrite set_nth_length. exact L1.
   - intros i tk2 j Hi Hj. destruct (Nat.eq_dec t i) as [<-|Hne].
     + rewrite (nth_error_set_nth_eq _ _ _ _ Ht) in Hi. inversion Hi; subst tk2.
@@ -792,6 +797,9 @@ Proof.
       * rewrite Ht in Ht0. inversion Ht0; subst tk0. exists tk'. split; [apply (nth_error_set_nth_eq _ _ _ _ Ht)|auto].
       * exists tk0. split; [rewrite nth_error_set_nth_neq by exact Hne; exact Ht0|exact Hv0].
   - exact L4.
+  - intros i tk2 Hi. destruct (Nat.eq_dec t i) as [<-|Hne].
+    + rewrite (nth_error_set_nth_eq _ _ _ _ Ht) in Hi. inversion Hi; subst tk2. exact Hvi.
+    + rewrite nth_error_set_nth_neq in Hi by exact Hne. apply (L5 i tk2 Hi).
 Qed.
 
 Lemma poll_status now tk : status_quiet tk -> status_quiet (fst (poll now tk)).
@@ -831,7 +839,7 @@ Lemma li_schedule o s b j delay :
              (forall i j', (i < length (tasks s))%nat -> covered o s i j' -> covered o s2 i j') ->
              covered o s2 id j -> src_guard o s2 -> LiveInv o s2.
 Proof.
-  intros [L1 L2 L3 L4] Hnj. cbn [schedule]. split; [reflexivity|].
+  intros [L1 L2 L3 L4 L5] Hnj. cbn [schedule]. split; [reflexivity|].
   intros s2 Ht Hj Ha Hold Hnew Hg. cbn [tasks jobs] in Ht, Hj. split.
   - rewrite Ht, Hj, !app_length, L1. reflexivity.
   - intros i tk j' Hi Hj'. rewrite Ht in Hi. rewrite Hj in Hj'.
@@ -849,6 +857,13 @@ Proof.
     + assert (i = length (jobs s)).
       { assert (i < length (jobs s ++ [j]))%nat by (apply nth_error_Some; congruence). rewrite app_length in H. cbn in H. lia. }
       subst i. rewrite nth_error_app_last in Hi. congruence.
+  - intros i tk Hi Hv. rewrite Ht in Hi.
+    destruct (Nat.lt_ge_cases i (length (tasks s))) as [Hlt|Hge].
+    + apply nth_error_app_old in Hi; [|exact Hlt]. apply (L5 i tk Hi Hv).
+    + assert (i = length (tasks s)).
+      { assert (i < length (tasks s ++ [spawn (b (length (tasks s))) delay]))%nat by (apply nth_error_Some; congruence).
+        rewrite app_length in H. cbn in H. lia. }
+      subst i. rewrite nth_error_app_last in Hi. inversion Hi; subst tk. cbn in Hv. discriminate.
 Qed.
 
 Lemma on_job_shape o s t j seq :
@@ -869,7 +884,7 @@ Lemma li_src_change o s on done :
   LiveInv o s -> (on = true -> match o with TDelaySubscription _ | TSubscribeOn | TInterval _ | TIntervalAt _ _ | TTimer _ _ => False | _ => True end) ->
   LiveInv o (upd_src s on done).
 Proof.
-  intros L Hon. apply (li_upd o s); auto. destruct L as [L1 L2 L3 L4].
+  intros L Hon. apply (li_upd o s); auto. destruct L as [L1 L2 L3 L4 L5].
   destruct o; cbn [src_guard upd_src src_on main_task jobs tasks multi] in *; auto;
     try (destruct L3 as (G1 & G2 & G3); repeat split; auto; intros ->; exfalso; apply Hon; reflexivity);
     try (destruct on; [exfalso; apply Hon; reflexivity|reflexivity]).
@@ -902,16 +917,18 @@ Proof.
   destruct (nth_error (jobs s) t) as [j|] eqn:Ej; [|exact L].
   pose proof (poll_status (now s) tk) as PS. pose proof (poll_value (now s) tk) as PV.
   pose proof (poll_once_ran (now s) tk) as PO. pose proof (poll_repeat_body (now s) tk) as PR.
+  pose proof (SchedLaws.poll_value_inv (now s) tk (li_value o s L t tk Et)) as PVI.
+  pose proof (SchedLaws.poll_run_not_finished (now s) tk) as PNF.
   destruct (poll (now s) tk) as [tk1 res]. cbn [fst snd] in *.
   assert (L1 : LiveInv o (upd_tasks s (set_nth (tasks s) t tk1))).
-  { apply (li_set_task o s t tk tk1 L Et PS). destruct o; auto. }
+  { apply (li_set_task o s t tk tk1 L Et PS); [destruct o; auto|exact PVI]. }
   destruct res as [|jn seq rep]; [exact L1|].
   set (s1 := upd_tasks s (set_nth (tasks s) t tk1)) in *.
   pose proof (on_job_shape o s1 t j seq) as SH.
   destruct (on_job o s1 t j seq) as [[s2 out] c]. destruct SH as (S1 & S2 & S3 & S4 & S5 & S6 & S7 & S8).
   assert (Ht1 : nth_error (tasks s1) t = Some tk1) by (unfold s1; cbn; apply (nth_error_set_nth_eq _ _ _ _ Et)).
   assert (Hj1 : nth_error (jobs s1) t = Some j) by exact Ej.
-  destruct (L1) as [A1 A2 A3 A4].
+  destruct (L1) as [A1 A2 A3 A4 A5].
   assert (Hsub : j = JSubscribe -> t = 0%nat /\ match o with TDelaySubscription _ | TSubscribeOn => True | _ => False end).
   { intros ->. apply (A4 t Hj1). }
   (* the invariant for any final state that is s2 with task t replaced by a tkf that keeps quietness and,
@@ -920,12 +937,12 @@ Proof.
             tasks sf = set_nth (tasks s1) t tkf -> jobs sf = jobs s2 -> multi sf = multi s2 -> handler sf = handler s2 ->
             main_task sf = main_task s2 -> (alive s2 = false -> alive sf = false) -> src_on sf = src_on s2 ->
             (status_quiet tk1 -> status_quiet tkf) -> (t_value tk1 = true -> t_value tkf = true) ->
-            (j = JSubscribe -> t_value tkf = true) -> LiveInv o sf).
-  { intros sf tkf F1 F2 F3 F4 F5 F6 F7 Hq Hv Hjs.
+            (j = JSubscribe -> t_value tkf = true) -> (t_value tkf = true -> t_stage tkf = StFinished) -> LiveInv o sf).
+  { intros sf tkf F1 F2 F3 F4 F5 F6 F7 Hq Hv Hjs Hvi.
     assert (L2 : LiveInv o (upd_tasks s1 (set_nth (tasks s1) t tkf))).
-    { apply (li_set_task o s1 t tk1 tkf L1 Ht1 Hq). destruct o; auto. }
+    { apply (li_set_task o s1 t tk1 tkf L1 Ht1 Hq); [destruct o; auto|exact Hvi]. }
     apply (li_upd o (upd_tasks s1 (set_nth (tasks s1) t tkf))); cbn [upd_tasks tasks jobs multi handler main_task alive]; auto; try congruence.
-    destruct L2 as [B1 B2 B3 B4].
+    destruct L2 as [B1 B2 B3 B4 B5].
     destruct o; cbn [src_guard upd_tasks tasks jobs main_task multi src_on] in *; auto; try contradiction.
     - destruct B3 as (l & Hl). exists l. congruence.
     - destruct B3 as (l & Hl). exists l. congruence.
@@ -949,6 +966,7 @@ Proof.
       * apply after_tick_value.
       * intros Ejs. destruct (S7 Ejs) as [_ ->]. destruct (PR jn seq eq_refl) as (p & due & Hb).
         unfold after_tick. rewrite Hb. reflexivity.
+      * apply SchedLaws.after_tick_value_inv; [apply (PNF jn seq eq_refl)|exact PVI].
     + rewrite S1, Ht1 in Et2. discriminate.
   - cbn [fst]. apply (Key s2 tk1); auto.
     + rewrite S1. symmetry. apply set_nth_same. exact Ht1.
@@ -963,12 +981,13 @@ Proof.
   apply (li_set_task o s t tk (cancel tk) L Et).
   - intros _. right. reflexivity.
   - destruct o; auto; contradiction.
+  - cbn. discriminate.
 Qed.
 
 Lemma li_slot_term o s e : LiveInv o s -> LiveInv o (fst (slot_term s e)).
 Proof.
   intros L. unfold slot_term. destruct (alive s) eqn:Ea; [|exact L]. cbn [fst].
-  apply (li_upd o s); cbn; auto. destruct L as [_ _ G _]. destruct o; cbn [src_guard] in *; auto.
+  apply (li_upd o s); cbn; auto. destruct L as [_ _ G _ _]. destruct o; cbn [src_guard] in *; auto.
 Qed.
 
 Lemma li_slot_next o s v : LiveInv o s -> LiveInv o (fst (slot_next s v)).
@@ -979,7 +998,7 @@ Lemma li_fields o s s' :
   main_task s' = main_task s -> alive s' = alive s -> src_on s' = src_on s -> LiveInv o s'.
 Proof.
   intros L H1 H2 H3 H4 H5 H6 H7. apply (li_upd o s); auto; [congruence|].
-  destruct L as [_ _ G _]. destruct o; cbn [src_guard] in *; auto; try congruence.
+  destruct L as [_ _ G _ _]. destruct o; cbn [src_guard] in *; auto; try congruence.
   - destruct G as (l & Hl). exists l. congruence.
   - destruct G as (l & Hl). exists l. congruence.
   - rewrite H5, H2, H7, H1. exact G.
@@ -1005,7 +1024,7 @@ Lemma li_relay_schedule o s j :
 Proof.
   intros Hop L Hj delay. pose proof (li_schedule o s BOnce j delay L Hj) as P.
   destruct (schedule s BOnce j delay) as [s1 id] eqn:Es. destruct P as [Hid P]. cbn [fst snd].
-  assert (Hm : exists l, multi s = Some l) by (destruct L as [_ _ G _]; destruct o; try contradiction; exact G).
+  assert (Hm : exists l, multi s = Some l) by (destruct L as [_ _ G _ _]; destruct o; try contradiction; exact G).
   destruct Hm as [l Hl].
   assert (Hm1 : multi s1 = Some l) by (unfold schedule in Es; inversion Es; subst; cbn; exact Hl).
   assert (Ha1 : alive s1 = alive s) by (unfold schedule in Es; inversion Es; subst; reflexivity).
@@ -1041,7 +1060,7 @@ Proof.
       (* after cancelling the pending window every task is quiet and no handle is stored *)
       assert (L2 : LiveInv (TDebounce d) s2 /\ handler s2 = None).
       { unfold s2. destruct (handler s1) as [h|] eqn:Eh; [|split; [exact L1|exact Eh]]. split; [|reflexivity].
-        pose proof (li_cancel (TDebounce d) s1 h I L1) as Lc. destruct Lc as [C1 C2 C3 C4].
+        pose proof (li_cancel (TDebounce d) s1 h I L1) as Lc. destruct Lc as [C1 C2 C3 C4 C5].
         pose proof (cancel_task_shape s1 h) as (K1 & K2 & K3 & K4 & K5 & K6 & K7 & K8 & K9).
         split; cbn [upd_handler tasks jobs]; auto.
         intros i tk j Hi Hj. destruct (C2 i tk j Hi Hj) as [Q|C]; [left; exact Q|].
@@ -1127,7 +1146,9 @@ Proof.
     try (intros [|[|i]] tk j Hi Hj; cbn in *; discriminate);
     try (intros [|[|i]] Hi; cbn in *; try discriminate; auto);
     try (eexists; reflexivity);
-    try (repeat split; auto; discriminate).
+    try (repeat split; auto; discriminate);
+    try (intros [|[|i]] tk Hi Hv; cbn in *; try discriminate; inversion Hi; subst; cbn in Hv; discriminate);
+    try (intros E Hv; inversion E; subst; cbn in Hv; discriminate).
 Qed.
 
 Fixpoint tfinal (o : top) (s : tsys) (ls : list tlab) : tsys :=
@@ -1216,4 +1237,61 @@ Proof.
   cbn [tstep] in *. destruct (on_unsub o s) as [s1 out]. cbn [fst snd] in *.
   exists (trun_sys o (tinit o) 0 ls1), (out ++ trun_sys o s1 (S (0 + length ls1)) ls2).
   split; [reflexivity|]. split; [reflexivity|]. apply no_tout_app; assumption.
+Qed.
+
+(* ---------- C17: is_closed() is sound ---------- *)
+
+Lemma task_finished_stage o s i tk :
+  LiveInv o s -> nth_error (tasks s) i = Some tk -> task_finished s i = true -> t_stage tk = StFinished.
+Proof.
+  intros L Hi Hf. unfold task_finished in Hf. rewrite Hi in Hf. apply (li_value o s L i tk Hi Hf).
+Qed.
+
+(* a live system whose subscription reports closed is silent for good *)
+Lemma closed_live_silent o s : not_raw o -> LiveInv o s -> sub_closed o s = true -> Silent s.
+Proof.
+  intros Ho L Hc. pose proof L as [L1 L2 L3 L4 L5].
+  assert (Fin : forall i tk j, nth_error (tasks s) i = Some tk -> nth_error (jobs s) i = Some j ->
+                 (covered o s i j -> task_finished s i = true \/ (alive s = false /\ slot_job j = true)) -> quiet_task s tk j).
+  { intros i tk j Hi Hj Hcov. destruct (L2 i tk j Hi Hj) as [Q|C]; [exact Q|].
+    destruct (Hcov C) as [F|D]; [left; apply (task_finished_stage o s i tk L Hi F)|right; right; exact D]. }
+  destruct o; try contradiction; cbn [sub_closed] in Hc.
+  - apply andb_prop in Hc. destruct Hc as [Hs Hm]. apply Bool.negb_true_iff in Hs. split; [exact Hs|].
+    intros i tk j Hi Hj. apply (Fin i tk j Hi Hj). intros (l & Hl & Hin). left. rewrite Hl in Hm.
+    apply (proj1 (forallb_forall _ _) Hm i Hin).
+  - apply andb_prop in Hc. destruct Hc as [Hs Hm]. apply Bool.negb_true_iff in Hs. split; [exact Hs|].
+    intros i tk j Hi Hj. apply (Fin i tk j Hi Hj). intros (l & Hl & Hin). left. rewrite Hl in Hm.
+    apply (proj1 (forallb_forall _ _) Hm i Hin).
+  - destruct (main_task s) as [t|] eqn:Em; [|discriminate]. apply andb_prop in Hc. destruct Hc as [Hf Hs].
+    apply Bool.negb_true_iff in Hs. split; [exact Hs|].
+    intros i tk j Hi Hj. apply (Fin i tk j Hi Hj). cbn [covered]. intros C. rewrite Em in C. inversion C; subst. left. exact Hf.
+  - destruct (main_task s) as [t|] eqn:Em; [|discriminate]. apply andb_prop in Hc. destruct Hc as [Hf Hs].
+    apply Bool.negb_true_iff in Hs. split; [exact Hs|].
+    intros i tk j Hi Hj. apply (Fin i tk j Hi Hj). cbn [covered]. intros C. rewrite Em in C. inversion C; subst. left. exact Hf.
+  - apply andb_prop in Hc. destruct Hc as [Hs Hh]. apply Bool.negb_true_iff in Hs. split; [exact Hs|].
+    intros i tk j Hi Hj. apply (Fin i tk j Hi Hj). cbn [covered]. intros C. rewrite C in Hh. discriminate.
+  - apply andb_prop in Hc. destruct Hc as [Hs Ha]. apply Bool.negb_true_iff in Hs. apply Bool.negb_true_iff in Ha.
+    split; [exact Hs|]. intros i tk j Hi Hj. apply (Fin i tk j Hi Hj). cbn [covered]. intros C. right. auto.
+  - apply andb_prop in Hc. destruct Hc as [Hf Hs]. apply Bool.negb_true_iff in Hs. split; [exact Hs|].
+    intros i tk j Hi Hj. apply (Fin i tk j Hi Hj). cbn [covered]. intros C. rewrite C in Hf. left. exact Hf.
+  - apply andb_prop in Hc. destruct Hc as [Hf Hs]. apply Bool.negb_true_iff in Hs. split; [exact Hs|].
+    intros i tk j Hi Hj. apply (Fin i tk j Hi Hj). cbn [covered]. intros C. rewrite C in Hf. left. exact Hf.
+  - cbn [src_guard] in L3. split; [exact L3|].
+    intros i tk j Hi Hj. apply (Fin i tk j Hi Hj). cbn [covered]. intros C. rewrite C in Hc. left. exact Hc.
+  - cbn [src_guard] in L3. split; [exact L3|].
+    intros i tk j Hi Hj. apply (Fin i tk j Hi Hj). cbn [covered]. intros C. rewrite C in Hc. left. exact Hc.
+  - cbn [src_guard] in L3. split; [exact L3|].
+    intros i tk j Hi Hj. apply (Fin i tk j Hi Hj). cbn [covered]. intros C. rewrite C in Hc. left. exact Hc.
+Qed.
+
+(* C17 (soundness): in every reachable state, if is_closed() answers true then,
+   whatever happens next, the subscriber is never called again *)
+Theorem closed_sound o ls1 ls2 j :
+  not_raw o ->
+  sub_closed o (tfinal o (tinit o) ls1) = true ->
+  no_tout (trun_sys o (tfinal o (tinit o) ls1) j ls2).
+Proof.
+  intros Ho Hc. apply silent_run; [exact Ho|].
+  destruct (inv_reach o ls1 Ho (tinit o) (or_introl (live_init o Ho))) as [L|HS]; [|exact HS].
+  apply (closed_live_silent o _ Ho L Hc).
 Qed.
